@@ -972,9 +972,45 @@ static void probe_case(int variant, uint64_t max_evals, FILE* o) {
         Interpolation off = {InterpolationType::Constant};
         off.value = 3;
         rp.arc(5, 5, -M_PI / 2, 0, 0, NULL, &off);
-    } else {
+    } else if (variant == 1) {
         rp.segment(Vec2{10, 0}, NULL, NULL, false);
         rp.segment(Vec2{10, 10}, NULL, NULL, false);
+    } else if (variant == 4) {
+        // default max_evals: a smooth width taper 1 -> 2 handed to interpolation() through two points restarts in the
+        // second cubic piece; the side curves of the two pieces never meet and the search never returns
+        rp.end_point = Vec2{1.25, -4};
+        rp.segment(Vec2{4.7230, 15.6962}, NULL, NULL, false);
+        Interpolation ip = {InterpolationType::Smooth};
+        ip.initial_value = 1;
+        ip.final_value = 2;
+        Vec2 pts[2] = {Vec2{5.8533, 52.0522}, Vec2{6.9836, 88.4083}};
+        Array<Vec2> arr = {};
+        arr.items = pts;
+        arr.count = 2;
+        double angles[3] = {1.396, 0, 0};
+        bool cons[3] = {true, false, false};
+        Vec2 tension[3] = {Vec2{1, 1}, Vec2{1, 1}, Vec2{1, 1}};
+        rp.interpolation(arr, angles, cons, tension, 1, 1, false, &ip, NULL, false);
+    } else {
+        // interpolation through two points with a taper: variant 2 offset 0 -> 2, variant 3 width 1 -> 2
+        Interpolation ip = {InterpolationType::Linear};
+        ip.initial_value = variant == 2 ? 0 : 1;
+        ip.final_value = 2;
+        Vec2 pts[2] = {Vec2{10, 2}, Vec2{20, 0}};
+        Array<Vec2> arr = {};
+        arr.items = pts;
+        arr.count = 2;
+        double angles[3] = {0, 0, 0};
+        bool cons[3] = {false, false, false};
+        Vec2 tension[3] = {Vec2{1, 1}, Vec2{1, 1}, Vec2{1, 1}};
+        rp.interpolation(arr, angles, cons, tension, 1, 1, false, variant == 3 ? &ip : NULL, variant == 2 ? &ip : NULL, false);
+        double wa, wb, oa, ob;
+        rp.width(1, true, &wa);
+        rp.width(1, false, &wb);
+        rp.offset(1, true, &oa);
+        rp.offset(1, false, &ob);
+        fprintf(o, "junction width %g|%g offset %g|%g ", wa, wb, oa, ob);
+        fflush(o);
     }
     Array<Polygon*> out = {};
     ErrorCode e = rp.to_polygons(false, 0, out);
@@ -1129,16 +1165,23 @@ static bool parse_gid(const std::string& payload, uint64_t& seed, uint64_t& idx)
 }
 
 static void probes(Out& out) {
-    struct Pr { int variant; uint64_t me; } prs[] = {{0, 2}, {0, 5}, {0, 10}, {0, 100}, {0, 1000}, {1, 1}, {1, 2}, {1, 1000}};
+    struct Pr { int variant; uint64_t me; } prs[] = {{0, 2}, {0, 5}, {0, 10}, {0, 100}, {0, 1000}, {1, 1}, {1, 2}, {1, 1000}, {2, 1000}, {3, 1000}, {4, 1000}};
     for (auto& p : prs) {
         std::string res = in_child([&](FILE* o) { probe_case(p.variant, p.me, o); }, 3);
-        std::string id = out.add("probe", std::string(p.variant == 0 ? "offset-step" : "corner") + " max_evals=" + std::to_string(p.me));
+        static const char* vn[] = {"offset-step", "corner", "interpolation-offset-taper", "interpolation-width-taper", "interpolation-smooth-width-taper"};
+        std::string id = out.add("probe", std::string(vn[p.variant]) + " max_evals=" + std::to_string(p.me));
         out.I(id, res);
         if (res == "HANG")
-            out.P(id, "FAIL RobustPath::intersection:evals-wrap the intersection search does not return: `while (evals-- > 0 || ...)` on an unsigned counter re-arms after reaching zero (max_evals = " + std::to_string(p.me) + ", centre curves that do not meet)");
+            out.P(id, "FAIL RobustPath::intersection:evals-wrap the intersection search does not return: `while (evals-- > 0 || ...)` on an unsigned counter re-arms after reaching zero (max_evals = " + std::to_string(p.me) + ", " + vn[p.variant] + ": curves that do not meet)");
         else if (res.compare(0, 5, "CRASH") == 0)
             out.P(id, "FAIL RobustPath::to_polygons:max-evals-1-crash max_evals = 1 samples no point at all and to_polygons indexes left_side.count - 2: " + res);
-        else
+        else if (p.variant >= 2 && res.find("junction") != std::string::npos) {
+            double wa, wb, oa, ob;
+            if (sscanf(res.c_str(), "junction width %lg|%lg offset %lg|%lg", &wa, &wb, &oa, &ob) == 4 && (fabs(wa - wb) > 1e-9 || fabs(oa - ob) > 1e-9))
+                out.P(id, "FAIL RobustPath::interpolation:taper-restarts-per-piece interpolation() hands the same width / offset Interpolation to every cubic piece: "
+                          "a taper from a to b restarts at a in each piece, so width / offset jump at the inner points (" + res + ")");
+            else out.P(id, "ok");
+        } else
             out.P(id, "ok");
     }
 }
